@@ -2,7 +2,18 @@
 """Generates /verif/MANIFEST.json from the table in manifest_table.json and the monitors present in harness/."""
 import json, os, subprocess, sys
 ROOT = '/verif'
-table = json.load(open(os.path.join(ROOT, 'scripts', 'manifest_table.json')))
+sys.path.insert(0, os.path.join(ROOT, 'scripts'))
+from manifest_table import TABLE
+# scripts/claimed.txt: one property id per line (+ optional '# comment'); only these are claimed.
+claimed = set()
+for line in open(os.path.join(ROOT, 'scripts', 'claimed.txt')):
+    line = line.split('#')[0].strip()
+    if line:
+        claimed.add(line)
+na_reasons = {}
+if os.path.exists(os.path.join(ROOT, 'scripts', 'na_reasons.json')):
+    na_reasons = json.load(open(os.path.join(ROOT, 'scripts', 'na_reasons.json')))
+table = {k: dict(v, claimed=(k in claimed), na_reason=na_reasons.get(k)) for k, v in TABLE.items()}
 props = [json.loads(l) for l in open(os.path.join(ROOT, 'properties.jsonl'))]
 checks, na = [], []
 for p in props:
@@ -22,7 +33,7 @@ for p in props:
             'technique': t['technique'],
         })
     else:
-        na.append({'property_id': pid, 'reason': t.get('na_reason', 'monitor not built yet; no claim is made for this property at this commit')})
+        na.append({'property_id': pid, 'reason': (t.get('na_reason') or 'monitor not yet validated on the current tree (silent at several seeds + mutant detection); no claim is made for this property at this commit')})
 hooks = subprocess.run(['git', '-C', '/repo', 'log', '--format=%H %s', '--grep=^verif hooks'], capture_output=True, text=True).stdout.strip().split('\n')
 m = {
     'version': 1,
